@@ -35,6 +35,10 @@ sensitivity is back projected with.  Further sources transcribed:
 * `IterativeReconstruction::end_of_iteration_processing` (IterativeReconstruction.cxx:538: inter-iteration filter every
   `inter_iteration_filter_interval` sub-iterations, post filter after the last one — both AFTER the clamp of `update_estimate`);
   `ArrayFilter1DUsingConvolution::do_it` (zero boundary) for the 3-tap separable filters the harness uses.
+* object re-use: `setUpObject` / `runObject` / `runHistory` — `OSSPSReconstruction::set_up` called again on an object that was
+  run before (l.251-272: every branch replaces `precomputed_denominator_ptr`), followed by `reconstruct(target)`;
+* `OSSPSReconstruction::set_defaults` (`Params.default`) is also what a parameter file that does not mention the OSSPS keys
+  leaves (`initialise` = `set_defaults` + `parse`).
 Not modelled: the random permutation of `randomise_subset_order` (the subset used is data; that every full iteration uses a
 permutation is C06's and the harness oracle's), `write_update_image`, 32-bit overflow.
 Core Lean only.
@@ -262,6 +266,50 @@ def setUpFile (p : Params) (obj : Objective) (start : Int) (targetChars : Chars)
     match file with
     | .unreadable => none
     | .image ch values => if sameCharacteristics ch targetChars then some (target', values) else none
+
+/-! ## one reconstruction object, several runs -/
+
+/-- `OSSPSReconstruction::set_up` (l.226-274) as a method of an OBJECT that may have been set up and run before:
+    `old` is `*precomputed_denominator_ptr` as the previous run left it (`none`: null pointer, a fresh object) — after a run
+    with a prior that is the data part PLUS twice the prior's surrogate curvature (`denomStored`).
+    `file = none`: `precomputed denominator` is "" or "1" (`Params.denominatorOnes`); `some (characteristics of the target, file)`:
+    a file name.  Every branch of l.251-272 REPLACES the pointer (`reset(target->get_empty_copy())` + recomputation / fill with 1 /
+    `read_from_file`): nothing of `old` survives a successful `set_up`, whatever the data, the prior or the parameters of the
+    earlier run were.  (When `set_up` refuses, the object must not be run; in the file branch the pointer then already points to
+    the mismatching image that was read.) -/
+def setUpObject (p : Params) (obj : Objective) (start : Int) (file : Option (Chars × DenomFile)) (_old : Option Img)
+    (target : Img) : Option (Img × Img) :=
+  match file with
+  | none => setUp p obj start target
+  | some (targetChars, f) => setUpFile p obj start targetChars f target
+
+/-- what the user configures before one `set_up(target)` + `reconstruct(target)` on the object: the parameters (number of
+    subsets, relaxation, upper bound, …), the objective function (input data, additive term, normalisation, prior — they may all
+    have been changed since the previous run), `start_subiteration_num`, `precomputed denominator`, the initial image -/
+structure RunSpec where
+  p : Params
+  obj : Objective
+  start : Int
+  file : Option (Chars × DenomFile) := none
+  target : Img
+
+/-- `set_up(target)` followed by `reconstruct(target)` on an object whose stored denominator is `old` -/
+def runObject (old : Option Img) (r : RunSpec) : Option State :=
+  match setUpObject r.p r.obj r.start r.file old r.target with
+  | none => none
+  | some (img, d) => some (reconstruct r.p r.obj r.start img d)
+
+/-- consecutive runs on ONE object: every run starts from the stored denominator the previous run left
+    (`none` when one of the `set_up`s refuses) -/
+def runHistory (old : Option Img) : List RunSpec → Option (List State)
+  | [] => some []
+  | r :: rs =>
+    match runObject old r with
+    | none => none
+    | some s =>
+      match runHistory (some s.denom) rs with
+      | none => none
+      | some ss => some (s :: ss)
 
 /-! ## inter-iteration and post filter -/
 
